@@ -486,6 +486,10 @@ class CausalInference(object):
         [1] Perkovic, Emilija, et al. "Complete graphical characterization and construction of adjustment sets in Markov equivalence classes of ancestral graphs." The Journal of Machine Learning Research 18.1 (2017): 8132-8193.
         """
         backdoor_graph = self.get_proper_backdoor_graph([X], [Y], inplace=False)
+        # Descendants of X can't be in an adjustment set. Treat them as latents.
+        backdoor_graph.latents = set(backdoor_graph.latents).union(
+            nx.descendants(self.model, X) - {Y}
+        )
         return backdoor_graph.minimal_dseparator(X, Y)
 
     def query(
